@@ -116,6 +116,31 @@ def listStrings : List Node → List Bytes
 end
 
 mutual
+/-- a filter encoder that is the WRAPPED encoder of another filter encoder, as it behaves today: the outer
+    encoder's `logObjectMarshalerWrapper.MarshalLogObject(_)` ignores the encoder it is handed and marshals
+    the fields of an object into the outer encoder's own `wrapped` — the inner encoder's top-level copy —
+    so the inner encoder sees the fields of EVERY level with an empty key prefix -/
+def encNode0 (o : Oracles) (cfg : FCfg) : Node → List Node
+  | .leaf k v =>
+    match lookupF cfg k with
+    | none => [.leaf k v]
+    | some f => emitLeaf (applyFilter o f ⟨k, v⟩)
+  | .obj k kids =>
+    match lookupF cfg k with
+    | none => [.obj k (encList0 o cfg kids)]
+    | some f => emitObj (applyFilter o f ⟨k, .other objTag⟩) (encList0 o cfg kids)
+  | .ns k => [.ns k]
+def encList0 (o : Oracles) (cfg : FCfg) : List Node → List Node
+  | [] => []
+  | n :: r => encNode0 o cfg n ++ encList0 o cfg r
+end
+
+/-- `format filter { fields outer; wrap filter { fields inner; wrap json } }`: the outer encoder's results are
+    added to the inner encoder -/
+def filterEncode2 (o : Oracles) (outer inner : FCfg) (fields : List Node) : List Node :=
+  encList0 o inner (encList o outer [] fields)
+
+mutual
 /-- the entry as the wrapped encoder renders it: the fields after a namespace become an object -/
 def nestNode : Node → Node
   | .leaf k v => .leaf k v
